@@ -63,6 +63,9 @@ def observe(case):
     return W.observe(case)
 
 
+to_model = W.to_model
+
+
 def fails_after(tok):
     return not (tok == "same" or tok.startswith("ret~R") or tok in ("ret~N", "ret~S78") or tok.startswith("ret~S"))
 
